@@ -562,6 +562,12 @@ impl ErasedNode for Node {
         debug_assert!(!self.is_in_recompute_heap());
         debug_assert!(self.is_necessary());
         if self.is_stale() {
+            if let Some(Kind::MapRef(mapref)) = self.kind() {
+                // The input changed while we were unnecessary and nobody told us (only parents
+                // get child_changed calls). Whatever we hear from now on, the next recompute
+                // must report a change.
+                mapref.did_change.set(true);
+            }
             state.recompute_heap.insert(self.packed());
         }
         if let Some(Kind::Expert(expert)) = self.kind() {
@@ -655,7 +661,11 @@ impl ErasedNode for Node {
             Kind::MapRef(mapref) => {
                 // don't run child_changed on our parents, because we already did that in OUR child_changed.
                 self.value_opt.replace(None);
-                self.maybe_change_value_manual(None, mapref.did_change.get(), false, state)
+                // `did_change` accumulates the verdicts of the `child_changed` calls since our
+                // last recompute; consume it. (While we are unnecessary we hear nothing, which is
+                // why `became_necessary` sets it: see there.)
+                let did_change = mapref.did_change.replace(false);
+                self.maybe_change_value_manual(None, did_change, false, state)
             }
             Kind::MapWithOld(map) => {
                 let input = map.input.value_as_any().unwrap();
@@ -1332,7 +1342,9 @@ impl ErasedNode for Node {
                 let did_change = self_old.map_or(true, |old| {
                     !self.cutoff.borrow_mut().should_cutoff(old, self_new)
                 });
-                mapref.did_change.set(did_change);
+                // never downgrade: a change we have not yet reported must survive a later
+                // "projection is equal" verdict
+                mapref.did_change.set(mapref.did_change.get() || did_change);
                 // now we propagate to parent
                 // (but first, set the only_in_debug stuff & recomputed_at <- t.stabilisation_num)
                 let pci = self.parent_child_indices.borrow();
